@@ -34,7 +34,7 @@ func TestVerif_C09(t *testing.T) {
 		"non-trivial = history with >=1 domain hit, >=1 domain miss and >=1 forward or agent hit; distinct by hash of operations + probes")
 	r.Assume("stored domain patterns are those accepted by routing.ValidateDomainPattern; letter case is ASCII")
 	n := r.N(2000, 60000)
-	r.ParCases("hist", n, 4, func(ci int, rng *verifkit.Rand) { c09History(r, "hist", ci, rng) })
+	r.ParCases("hist", n, 8, func(ci int, rng *verifkit.Rand) { c09History(r, "hist", ci, rng) })
 	r.Require("domain_lookups", 20000)
 	r.Require("domain_exact_hits", 2000)
 	r.Require("domain_wildcard_hits", 2000)
@@ -225,6 +225,19 @@ func c09JudgeDomain(r *verifkit.R, w *c8World, phase string, ci int, snap []c8En
 	return v
 }
 
+// c09MultiSurvivorKey: some key still has >= 2 routes after a partial cleanup (where a
+// broken per-key order would matter).
+func c09MultiSurvivorKey(w *c8World, after []c8Ent) bool {
+	n := map[string]int{}
+	for i := range after {
+		n[after[i].Key]++
+		if n[after[i].Key] >= 2 {
+			return true
+		}
+	}
+	return false
+}
+
 // c09JudgeKeyed evaluates a forward-key or agent lookup: cands are the stored routes with
 // exactly that key.
 func c09JudgeKeyed(r *verifkit.R, phase string, ci int, kind string, snap []c8Ent, key, shown string, gotNil bool, gotKey string, gotOrigin, gotNH c8ID,
@@ -281,10 +294,10 @@ func c09History(r *verifkit.R, phase string, ci int, rng *verifkit.Rand) {
 			"stored_agent": c8ShowAll(w, snaps[c8Agent])}
 	}
 	domHit, domMiss, keyedHit := false, false, false
-	probeDomain := func(n int) {
-		for _, name := range c09Names(rng, snaps[c8Domain], n) {
+	probeDomainNames := func(names []string, sweep bool) {
+		for _, name := range names {
 			var got *routing.DomainRoute
-			if viaManager && rng.Bool() {
+			if viaManager && !sweep && rng.Bool() {
 				got = rig.mgr.LookupDomain(name)
 			} else {
 				got = rig.dom.t.Lookup(name)
@@ -293,7 +306,11 @@ func c09History(r *verifkit.R, phase string, ci int, rng *verifkit.Rand) {
 			if got != nil {
 				res = fmt.Sprintf("%s metric=%d origin=%s", got.Pattern, got.Metric, w.name(got.OriginAgent))
 			}
-			steps = append(steps, fmt.Sprintf("lookup domain %q -> %s", name, res))
+			if !sweep {
+				steps = append(steps, fmt.Sprintf("lookup domain %q -> %s", name, res))
+			} else {
+				r.Add("sweep_lookups", 1)
+			}
 			v := c09JudgeDomain(r, w, phase, ci, snaps[c8Domain], name, got, wit)
 			r.Add("domain_lookups", 1)
 			if got == nil {
@@ -312,19 +329,20 @@ func c09History(r *verifkit.R, phase string, ci int, rng *verifkit.Rand) {
 			}
 		}
 	}
-	probeForward := func(n int) {
-		for i := 0; i < n; i++ {
-			key := verifkit.Pick(rng, c8FwdKeys)
-			if rng.Chance(1, 8) {
-				key = verifkit.Pick(rng, []string{"", "nope", "WEB", "web "})
-			}
+	probeDomain := func(n int) { probeDomainNames(c09Names(rng, snaps[c8Domain], n), false) }
+	probeForwardKeys := func(keys []string, sweep bool) {
+		for _, key := range keys {
 			var got *routing.ForwardRoute
-			if viaManager && rng.Bool() {
+			if viaManager && !sweep && rng.Bool() {
 				got = rig.mgr.LookupForward(key)
 			} else {
 				got = rig.fwd.t.Lookup(key)
 			}
-			steps = append(steps, fmt.Sprintf("lookup forward %q -> %v", key, got))
+			if !sweep {
+				steps = append(steps, fmt.Sprintf("lookup forward %q -> %v", key, got))
+			} else {
+				r.Add("sweep_lookups", 1)
+			}
 			var hit, tb bool
 			if got == nil {
 				hit, tb = c09JudgeKeyed(r, phase, ci, c8Forward, snaps[c8Forward], key, fmt.Sprintf("%q", key), true, "", c8ID{}, c8ID{}, 0, 0, wit)
@@ -343,16 +361,29 @@ func c09History(r *verifkit.R, phase string, ci int, rng *verifkit.Rand) {
 			}
 		}
 	}
-	probeAgent := func(n int) {
-		for i := 0; i < n; i++ {
-			id := verifkit.Pick(rng, w.all)
+	probeForward := func(n int) {
+		keys := make([]string, n)
+		for i := range keys {
+			keys[i] = verifkit.Pick(rng, c8FwdKeys)
+			if rng.Chance(1, 8) {
+				keys[i] = verifkit.Pick(rng, []string{"", "nope", "WEB", "web "})
+			}
+		}
+		probeForwardKeys(keys, false)
+	}
+	probeAgentIDs := func(ids []c8ID, sweep bool) {
+		for _, id := range ids {
 			var got *routing.AgentRoute
-			if viaManager && rng.Bool() {
+			if viaManager && !sweep && rng.Bool() {
 				got = rig.mgr.LookupAgent(id)
 			} else {
 				got = rig.agt.t.Lookup(id)
 			}
-			steps = append(steps, fmt.Sprintf("lookup agent %s -> %v", w.name(id), got))
+			if !sweep {
+				steps = append(steps, fmt.Sprintf("lookup agent %s -> %v", w.name(id), got))
+			} else {
+				r.Add("sweep_lookups", 1)
+			}
 			var hit, tb bool
 			if got == nil {
 				hit, tb = c09JudgeKeyed(r, phase, ci, c8Agent, snaps[c8Agent], string(id[:]), w.name(id), true, "", c8ID{}, c8ID{}, 0, 0, wit)
@@ -369,6 +400,54 @@ func c09History(r *verifkit.R, phase string, ci int, rng *verifkit.Rand) {
 			} else if got == nil {
 				r.Add("agent_nil", 1)
 			}
+		}
+	}
+	probeAgent := func(n int) {
+		ids := make([]c8ID, n)
+		for i := range ids {
+			ids[i] = verifkit.Pick(rng, w.all)
+		}
+		probeAgentIDs(ids, false)
+	}
+	// sweep: after EVERY mutating call every key present in the mutated table is looked up
+	// (a per-key slice left unsorted by the call is visible until the next sort of that key):
+	// exact patterns by their own name, wildcards by one label below the base, forward keys
+	// and agent ids as they are.
+	sweep := func(kind string) {
+		seen := map[string]bool{}
+		switch kind {
+		case c8Domain:
+			var names []string
+			for _, e := range snaps[kind] {
+				if seen[e.Key] {
+					continue
+				}
+				seen[e.Key] = true
+				if strings.HasPrefix(e.Raw, "*.") {
+					names = append(names, "q."+e.Raw[2:])
+				} else {
+					names = append(names, e.Raw)
+				}
+			}
+			probeDomainNames(names, true)
+		case c8Forward:
+			var keys []string
+			for _, e := range snaps[kind] {
+				if !seen[e.Key] {
+					seen[e.Key] = true
+					keys = append(keys, e.Raw)
+				}
+			}
+			probeForwardKeys(keys, true)
+		case c8Agent:
+			var ids []c8ID
+			for _, e := range snaps[kind] {
+				if !seen[e.Key] {
+					seen[e.Key] = true
+					ids = append(ids, e.Agent)
+				}
+			}
+			probeAgentIDs(ids, true)
 		}
 	}
 	kinds := []string{c8Domain, c8Domain, c8Forward, c8Agent}
@@ -388,10 +467,22 @@ func c09History(r *verifkit.R, phase string, ci int, rng *verifkit.Rand) {
 		kind := verifkit.Pick(rng, kinds)
 		op := gen.genOp(kind, snaps[kind])
 		steps = append(steps, op.show(w))
+		before := snaps[kind]
 		rig.apply(&op)
+		if op.Op == "mark" {
+			continue
+		}
 		snaps[kind] = rig.tabs[kind].Snap()
 		r.Add("mutations", 1)
 		r.Add("op_"+op.Op, 1)
+		if op.Op == "cleanup" && c8PartialCleanup(w, before, snaps[kind]) {
+			r.Add("partial_stale_cleanups", 1)
+			r.Add("partial_stale_cleanups_"+kind, 1)
+			if c09MultiSurvivorKey(w, snaps[kind]) {
+				r.Add("partial_stale_cleanups_leaving_2plus_on_a_key", 1)
+			}
+		}
+		sweep(kind)
 	}
 	probeDomain(rng.Range(5, 12))
 	probeForward(rng.Range(2, 6))
